@@ -3,7 +3,7 @@
 # Applies the patch to /repo, verifies build + suite + demo, runs checks, and always undoes the patch.
 PID=$1; K=$2; shift 2
 CHECKS=${@:-$PID}
-OUT=/tmp/seed/out/$PID
+OUT=${SEEDOUT:-/tmp/seed/out}/$PID
 export GOFLAGS=-mod=mod GOPROXY=off GOSUMDB=off GOTOOLCHAIN=local
 cd /repo || exit 9
 if [ -n "$(git status --porcelain)" ]; then echo "repo not clean"; exit 9; fi
